@@ -109,7 +109,12 @@ class PieceLengthValueError(Exception):
 
         The `message` argument is a message to pass to Exception base class.
         """
-        self.message = f"Incorrect value for piece length: {str(message)}"
+        try:
+            text = str(message)
+        except ValueError:
+            # an integer with more digits than int -> str conversion allows
+            text = message = f"<integer of {message.bit_length()} bits>"
+        self.message = f"Incorrect value for piece length: {text}"
         super().__init__(message)
 
 
@@ -172,7 +177,11 @@ def normalize_piece_length(piece_length: int) -> int:
     """
     if isinstance(piece_length, str):
         if piece_length.isascii() and piece_length.isdigit():
-            piece_length = int(piece_length)
+            try:
+                piece_length = int(piece_length)
+            except ValueError as err:
+                # more digits than str -> int conversion allows
+                raise PieceLengthValueError(piece_length) from err
         else:
             raise PieceLengthValueError(piece_length)
 
